@@ -3,6 +3,7 @@ C01 — per-key mutual exclusion, also for keys without a value.
 Statements only (plus non-vacuity examples); helper lemmas live in `Lockable/Proofs`.
 -/
 import Lockable.Proofs.Steps3
+import Lockable.Proofs.Layers
 namespace Lockable
 
 /-- `h` is a guard for key `k`: a live handle in state `holding` or `stamped`, however it was created
@@ -44,6 +45,37 @@ theorem C01_acquire_needs_handoff (s : State) (h : Nat) (hd : Handle) (m : Entry
   unfold acquire
   simp only [hh, hm]
   split <;> simp_all
+
+theorem guards_exclusive_of_inv (s : State) (hi : Inv s) (h₁ h₂ k : Nat) :
+    IsGuard s h₁ k → IsGuard s h₂ k → h₁ = h₂ := by
+  intro ⟨hd1, e1, k1, g1⟩ ⟨hd2, e2, k2, g2⟩
+  have ⟨m, hm, _⟩ := eeid_inv (hi.live h₁ hd1 e1)
+  have a1 := hi.guardHolds h₁ hd1 e1 g1 m hm
+  have a2 := hi.guardHolds h₂ hd2 e2 g2 m (by rw [k2, ← k1]; exact hm)
+  rw [a1] at a2; exact Option.some.inj a2
+
+/-- the same for everything the sequential API layer can do: any sequence of public calls — all acquisition
+variants with or without soft limit and any callback script (removing, keeping, replacing, stashing guards,
+re-entering, failing, panicking), polls and cancellations, guard methods, drops in any order, expiry calls,
+`lock_all_entries` streams polled and dropped at any point — never produces two guards for one key. -/
+theorem C01_exclusive_api (kind : Kind) (cs : List Call) (h₁ h₂ k : Nat) :
+    let a := cs.foldl (fun a c => (a.exec c).1) (Api.init kind)
+    IsGuard a.s h₁ k → IsGuard a.s h₂ k → h₁ = h₂ := by
+  intro a
+  exact guards_exclusive_of_inv a.s (inv_execs cs (Api.init kind) (inv_init kind)) h₁ h₂ k
+
+/-- … and for every schedule of every set of thread programs of the scheduled interpreter (the model side of the
+thread-level correspondence): `sched` is any list of thread indices. -/
+theorem C01_exclusive_sched (sc : Sched) (hi : Inv sc.s) (sched : List Nat) (h₁ h₂ k : Nat) :
+    let sc' := sched.foldl (fun sc t => (sc.step t).1) sc
+    IsGuard sc'.s h₁ k → IsGuard sc'.s h₂ k → h₁ = h₂ := by
+  intro sc'
+  have : ∀ (l : List Nat) (c : Sched), Inv c.s → Inv (l.foldl (fun sc t => (sc.step t).1) c).s := by
+    intro l
+    induction l with
+    | nil => intro c hc; exact hc
+    | cons t ts ih => intro c hc; exact ih _ (inv_schedStep c t hc)
+  exact guards_exclusive_of_inv sc'.s (this sched sc hi) h₁ h₂ k
 
 /-- non-vacuity: a reachable state with a guard on a key without value, a queued waiter and a failed try -/
 example :
